@@ -1,0 +1,329 @@
+//go:build verif
+
+package updown
+
+//@ # C19: return-style writers. result == nil implies every Write succeeded.
+//@ func writeUpDownCatchment
+//@   modifies w
+//@   loop 1:
+//@     invariant !failed(w)
+//@   loop 2:
+//@     invariant !failed(w)
+//@   loop 3:
+//@     invariant !failed(w)
+//@   loop 4:
+//@     invariant !failed(w)
+//@   loop 5:
+//@     invariant !failed(w)
+//@   ensures [c19] implies(result == nil, !failed(w))
+
+//@ func writeUpdownTable
+//@   modifies w
+//@   loop 1:
+//@     invariant !failed(w)
+//@   loop 2:
+//@     invariant !failed(w)
+//@   loop 3:
+//@     invariant !failed(w)
+//@   loop 4:
+//@     invariant !failed(w)
+//@   loop 5:
+//@     invariant !failed(w)
+//@   ensures [c19] implies(result == nil, !failed(w))
+
+//@ spec posOf(k int) int uninterpreted
+
+//@ # C10/C12/C19: updown list writer. Rows in idx order for every arrival order; ambiguity ranges rendered "a" when
+//@ # start == end and "a-b" otherwise (asserted at each append); a failed Write is reported and done is withheld.
+//@ func writeOutput
+//@   modifies w, cErr, cWriteDone
+//@   requires forall(k, 0, len(recv(cudLs)), 0 <= posOf(k) && posOf(k) < len(recv(cudLs)) && recv(cudLs)[posOf(k)].idx == k)
+//@   requires forall(a, 0, len(recv(cudLs)), 0 <= recv(cudLs)[a].idx && recv(cudLs)[a].idx < len(recv(cudLs)) && posOf(recv(cudLs)[a].idx) == a)
+//@   requires forall(a, 0, len(recv(cudLs)), len(recv(cudLs)[a].ambs) % 2 == 0)
+//@   loop 1:
+//@     invariant 0 <= counter && counter <= len(recv(cudLs)) && !in(outputMap, counter)
+//@     invariant forallint(k, in(outputMap, k) == (counter <= k && k < len(recv(cudLs)) && posOf(k) < range_i))
+//@     invariant forall(k, counter, len(recv(cudLs)), implies(posOf(k) < range_i, outputMap[k] == recv(cudLs)[posOf(k)]))
+//@     invariant forall(k, 0, counter, posOf(k) < range_i)
+//@     invariant !failed(w) && len(sent(cErr)) == 0 && len(sent(cWriteDone)) == 0
+//@     invariant len(written(w)) == 1 + counter
+//@   loop 2:
+//@     invariant 0 <= counter && counter <= len(recv(cudLs))
+//@     invariant forallint(k, in(outputMap, k) == (counter <= k && k < len(recv(cudLs)) && posOf(k) < range_i + 1))
+//@     invariant forall(k, counter, len(recv(cudLs)), implies(posOf(k) < range_i + 1, outputMap[k] == recv(cudLs)[posOf(k)]))
+//@     invariant forall(k, 0, counter, posOf(k) < range_i + 1)
+//@     invariant !failed(w) && len(sent(cErr)) == 0 && len(sent(cWriteDone)) == 0
+//@     invariant len(written(w)) == 1 + counter
+//@     decreases len(recv(cudLs)) - counter
+//@   loop 3:
+//@     invariant 0 <= i && i % 2 == 0 && len(ambstrings) * 2 == i && i <= len(udLine.ambs) && len(udLine.ambs) % 2 == 0
+//@     invariant forall(m, 0, len(ambstrings), ambstrings[m] == ite(udLine.ambs[2*m] == udLine.ambs[2*m+1], itoa(udLine.ambs[2*m]), itoa(udLine.ambs[2*m]) + "-" + itoa(udLine.ambs[2*m+1])))
+//@     invariant 0 <= counter && counter < len(recv(cudLs)) && udLine == recv(cudLs)[posOf(counter)]
+//@   before call:Write#2: assert [order] udLine == recv(cudLs)[posOf(counter)] && len(ambstrings) * 2 == len(udLine.ambs)
+//@   after call:Write#2: assert [row] written(w)[len(written(w))-1] == udLine.id + "," + join(udLine.snps, "|") + "," + join(ambstrings, "|") + "," + itoa(udLine.snpCount) + "," + itoa(udLine.ambCount) + "\n"
+//@   ensures [c19.reported] implies(failed(w), len(sent(cErr)) >= 1 && len(sent(cWriteDone)) == 0)
+//@   ensures [c12.done] implies(!failed(w), len(sent(cErr)) == 0 && len(sent(cWriteDone)) == 1 && len(written(w)) == 1 + len(recv(cudLs)))
+
+//@ # C10: one pass over the columns. Ghost = the specification's run-length state: gAmb (inside a run of non-A/C/G/T
+//@ # columns), gStart (its first column, 0-based), gRuns (runs closed so far), gLastEnd (1-based end of the last closed run).
+//@ # SNP list entries are pinned through count() exactly as in snps.getSNPs; ambiguity ranges are asserted at the point
+//@ # where each pair is appended: it is a maximal run (bounded by resolved columns or the sequence ends), 1-based inclusive,
+//@ # strictly after the previous range with at least one resolved column in between.
+//@ spec resolved(b byte) bool = (b & 8) == 8
+//@ func getLines
+//@   modifies cUDs, cErr
+//@   ghost gAmb bool = false
+//@   ghost gStart int = 0
+//@   ghost gRuns int = 0
+//@   ghost gLastEnd int = 0
+//@   loop 1:
+//@     invariant len(sent(cUDs)) == range_i
+//@     invariant forall(t, 0, range_i, sent(cUDs)[t].idx == recv(cFR)[t].Idx && sent(cUDs)[t].id == recv(cFR)[t].ID && len(sent(cUDs)[t].ambs) % 2 == 0)
+//@     invariant implies(exists(t, 0, range_i, len(recv(cFR)[t].Seq) != len(refSeq)), len(sent(cErr)) >= 1)
+//@     do-start gAmb = false; gStart = 0; gRuns = 0; gLastEnd = 0
+//@   loop 2:
+//@     invariant len(sent(cUDs)) == range_i1
+//@     invariant cont == gAmb && len(ambs) == 2 * gRuns && gRuns >= 0 && 0 <= gLastEnd && implies(gRuns > 0, gLastEnd < i)
+//@     invariant implies(cont, 0 <= gStart && gStart < i && amb_start == gStart && amb_stop == i - 1 && forall(k, gStart, i, !resolved(FR.Seq[k])) && (gStart == 0 || resolved(FR.Seq[gStart-1])) && implies(gRuns > 0, gStart + 1 >= gLastEnd + 2))
+//@     invariant implies(!cont, i == 0 || resolved(FR.Seq[i-1]))
+//@     invariant implies(gRuns > 0, ambs[len(ambs)-1] == gLastEnd)
+//@     invariant ambCount == count(k, 0, i, !resolved(FR.Seq[k]))
+//@     invariant snpCount == count(k, 0, i, resolved(FR.Seq[k]) && (refSeq[k] & FR.Seq[k]) < 16) && len(snps) == snpCount && len(snpPos) == snpCount
+//@     invariant forall(j, 0, i, implies(resolved(FR.Seq[j]) && (refSeq[j] & FR.Seq[j]) < 16, snps[count(k, 0, j, resolved(FR.Seq[k]) && (refSeq[k] & FR.Seq[k]) < 16)] == DA[refSeq[j]] + itoa(j+1) + DA[FR.Seq[j]]))
+//@     invariant forall(j, 0, i, implies(resolved(FR.Seq[j]) && (refSeq[j] & FR.Seq[j]) < 16, snpPos[count(k, 0, j, resolved(FR.Seq[k]) && (refSeq[k] & FR.Seq[k]) < 16)] == j+1))
+//@     do-end if !resolved(FR.Seq[i]) { if !gAmb { gAmb = true; gStart = i } } else { if gAmb { gAmb = false; gRuns++; gLastEnd = i } }
+//@   after append#4: assert [range.mid] gAmb && ambs[len(ambs)-2] == gStart + 1 && ambs[len(ambs)-1] == i && resolved(FR.Seq[i]) && forall(k, gStart, i, !resolved(FR.Seq[k])) && (gStart == 0 || resolved(FR.Seq[gStart-1])) && implies(gRuns > 0, gStart + 1 >= gLastEnd + 2)
+//@   after append#6: assert [range.end] gAmb && ambs[len(ambs)-2] == gStart + 1 && ambs[len(ambs)-1] == len(FR.Seq) && forall(k, gStart, len(FR.Seq), !resolved(FR.Seq[k])) && (gStart == 0 || resolved(FR.Seq[gStart-1]))
+//@   before send#2: assert [line.counts] udLine.snpCount == count(k, 0, len(FR.Seq), resolved(FR.Seq[k]) && (refSeq[k] & FR.Seq[k]) < 16) && udLine.ambCount == count(k, 0, len(FR.Seq), !resolved(FR.Seq[k])) && len(udLine.snps) == udLine.snpCount && len(udLine.snpsPos) == udLine.snpCount && len(udLine.ambs) == 2 * ite(gAmb, gRuns + 1, gRuns)
+//@   before send#2: assert [line.snps] forall(j, 0, len(FR.Seq), implies(resolved(FR.Seq[j]) && (refSeq[j] & FR.Seq[j]) < 16, udLine.snps[count(k, 0, j, resolved(FR.Seq[k]) && (refSeq[k] & FR.Seq[k]) < 16)] == DA[refSeq[j]] + itoa(j+1) + DA[FR.Seq[j]] && udLine.snpsPos[count(k, 0, j, resolved(FR.Seq[k]) && (refSeq[k] & FR.Seq[k]) < 16)] == j+1))
+//@   ensures len(sent(cUDs)) == len(recv(cFR))
+//@   ensures [c18.width] implies(exists(t, 0, len(recv(cFR)), len(recv(cFR)[t].Seq) != len(refSeq)), len(sent(cErr)) >= 1)
+
+//@ # C09: CSV input path
+//@ func headerEqual
+//@   loop 1:
+//@     invariant forall(j, 0, i, a[j] == b[j])
+//@   ensures result == (len(a) == len(b) && forall(j, 0, len(a), a[j] == b[j]))
+
+//@ func getAmbArr
+//@   loop 1:
+//@     invariant len(A) == 2 * range_i
+//@   ensures implies(result2 == nil, len(result1) % 2 == 0)
+
+//@ func readCSVToUDLList
+//@   loop 1:
+//@     invariant header == (linepos(r) == 0)
+//@     invariant counter == len(LudL)
+//@     invariant implies(!header, len(lines(r)[0]) == 5)
+//@     invariant implies(!header, counter == linepos(r) - 1) && implies(header, counter == 0)
+//@     invariant forall(t, 0, len(LudL), LudL[t].idx == t)
+//@   loop 2:
+//@     invariant len(snpPos) == len(snps) && disjoint(snpPos, LudL) && forall(t, 0, len(LudL), LudL[t].idx == t)
+//@   ensures [idx] implies(result2 == nil, forall(t, 0, len(result1), result1[t].idx == t))
+//@   ensures [local.rows] implies(result2 == nil, len(result1) == len(lines(r)) - 1)
+//@   ensures [local.c18.empty] implies(len(lines(r)) == 0, result2 != nil)
+
+//@ func readCSVToUDLChan
+//@   modifies cudL, cErr, cReadDone
+//@   loop 1:
+//@     invariant header == (linepos(r) == 0)
+//@     invariant implies(!header, len(lines(r)[0]) == 5)
+//@     invariant len(sent(cErr)) == 0 && len(sent(cReadDone)) == 0
+//@   loop 2:
+//@     invariant len(sent(cErr)) == 0 && len(sent(cReadDone)) == 0 && len(snpPos) == len(snps)
+//@   ensures [c18.exclusive] len(sent(cErr)) + len(sent(cReadDone)) == 1
+//@   ensures [c18.empty] implies(len(lines(r)) == 0, len(sent(cErr)) == 1)
+
+//@ # C09/C12: restoring file order after parallel conversion. For every arrival order the output is the input sorted by idx.
+//@ func reorderRecords
+//@   modifies cOut, cReorderDone
+//@   requires forall(k, 0, len(recv(cIn)), 0 <= posOf(k) && posOf(k) < len(recv(cIn)) && recv(cIn)[posOf(k)].idx == k)
+//@   requires forall(a, 0, len(recv(cIn)), 0 <= recv(cIn)[a].idx && recv(cIn)[a].idx < len(recv(cIn)) && posOf(recv(cIn)[a].idx) == a)
+//@   loop 1:
+//@     invariant 0 <= counter && counter <= range_i && len(reorderMap) == range_i - counter && len(sent(cOut)) == counter && len(sent(cReorderDone)) == 0
+//@     invariant forallint(k, in(reorderMap, k) == (counter <= k && k < len(recv(cIn)) && posOf(k) < range_i))
+//@     invariant forall(k, counter, len(recv(cIn)), implies(posOf(k) < range_i, reorderMap[k] == recv(cIn)[posOf(k)]))
+//@     invariant forall(k, 0, counter, posOf(k) < range_i && sent(cOut)[k] == recv(cIn)[posOf(k)])
+//@   loop 2:
+//@     invariant 0 <= counter && counter <= len(recv(cIn)) && len(reorderMap) == len(recv(cIn)) - counter && len(sent(cOut)) == counter && len(sent(cReorderDone)) == 0 && n == 1
+//@     invariant forallint(k, in(reorderMap, k) == (counter <= k && k < len(recv(cIn))))
+//@     invariant forall(k, counter, len(recv(cIn)), reorderMap[k] == recv(cIn)[posOf(k)])
+//@     invariant forall(k, 0, counter, sent(cOut)[k] == recv(cIn)[posOf(k)])
+//@     decreases len(recv(cIn)) - counter
+//@   ensures [c12.order] len(sent(cOut)) == len(recv(cIn)) && forall(k, 0, len(recv(cIn)), sent(cOut)[k] == recv(cIn)[posOf(k)] && sent(cOut)[k].idx == k)
+//@   ensures [done] len(sent(cReorderDone)) == 1
+
+//@ # C08: option normalisation and final size allocation (pure integer code over [4]int; loops over fixed-size arrays are
+//@ # unrolled exactly by the engine)
+//@ func sum4
+//@   ensures result == a[0] + a[1] + a[2] + a[3]
+//@ func allZero
+//@   loop 1:
+//@     invariant forall(j, 0, range_i, s[j] == 0)
+//@   ensures result == forall(j, 0, len(s), s[j] == 0)
+//@ func allGreaterThanEqualTo4
+//@   ensures result == (a[0] >= b[0] && a[1] >= b[1] && a[2] >= b[2] && a[3] >= b[3])
+//@ func stringInArray
+//@   loop 1:
+//@     invariant forall(j, 0, i, sa[j] != s)
+//@   ensures result == exists(j, 0, len(sa), sa[j] == s)
+//@ func isSiteAmb
+//@   requires len(a) % 2 == 0
+//@   loop 1:
+//@     invariant 0 <= i && i % 2 == 0 && forall(m, 0, i / 2, !(pos >= a[2*m] && pos <= a[2*m+1]))
+//@   ensures result == exists(m, 0, len(a) / 2, pos >= a[2*m] && pos <= a[2*m+1])
+
+//@ spec imin(a int, b int) int = ite(a <= b, a, b)
+//@ # balance: size[i] <= observed[i]; with --no-fill each bin gets min(requested, available); when no bin is short the
+//@ # requested sizes are returned; otherwise shortfalls are made up from bins with spare candidates, one at a time in
+//@ # round-robin order, until the total reaches sizetotal or the spare supply is exhausted: the total is
+//@ # min(sizetotal, sum of observed) and no bin gets less than min(requested, available). Terminates.
+//@ func balance
+//@   requires sizeIdeal[0] >= 0 && sizeIdeal[1] >= 0 && sizeIdeal[2] >= 0 && sizeIdeal[3] >= 0
+//@   requires sizeObserved[0] >= 0 && sizeObserved[1] >= 0 && sizeObserved[2] >= 0 && sizeObserved[3] >= 0
+//@   requires (sizeObserved[0] >= sizeIdeal[0] && sizeObserved[1] >= sizeIdeal[1] && sizeObserved[2] >= sizeIdeal[2] && sizeObserved[3] >= sizeIdeal[3] && sizetotal >= sizeIdeal[0] + sizeIdeal[1] + sizeIdeal[2] + sizeIdeal[3]) || sizetotal > imin(sizeIdeal[0], sizeObserved[0]) + imin(sizeIdeal[1], sizeObserved[1]) + imin(sizeIdeal[2], sizeObserved[2]) + imin(sizeIdeal[3], sizeObserved[3])
+//@   loop 3:
+//@     invariant n == 0 || n == 1
+//@     invariant forall(i, 0, 4, sizeAvail[i] >= 0 && size[i] >= imin(sizeIdeal[i], sizeObserved[i]) && ite(sizeObserved[i] > sizeIdeal[i], size[i] + sizeAvail[i] == sizeObserved[i], size[i] == sizeObserved[i] && sizeAvail[i] == 0))
+//@     invariant size[0] + size[1] + size[2] + size[3] <= sizetotal && implies(n == 1, size[0] + size[1] + size[2] + size[3] < sizetotal)
+//@     invariant implies(n == 0, size[0] + size[1] + size[2] + size[3] == sizetotal || sizeAvail[0] + sizeAvail[1] + sizeAvail[2] + sizeAvail[3] == 0)
+//@     decreases sizeAvail[0] + sizeAvail[1] + sizeAvail[2] + sizeAvail[3] + n
+//@   ensures [bounded] forall(i, 0, 4, result[i] <= sizeObserved[i] && result[i] >= imin(sizeIdeal[i], sizeObserved[i]))
+//@   ensures [nofill] implies(nofill, forall(i, 0, 4, result[i] == imin(sizeIdeal[i], sizeObserved[i])))
+//@   ensures [noshort] implies(sizeObserved[0] >= sizeIdeal[0] && sizeObserved[1] >= sizeIdeal[1] && sizeObserved[2] >= sizeIdeal[2] && sizeObserved[3] >= sizeIdeal[3], forall(i, 0, 4, result[i] == sizeIdeal[i]))
+//@   ensures [total] implies(!nofill && !(sizeObserved[0] >= sizeIdeal[0] && sizeObserved[1] >= sizeIdeal[1] && sizeObserved[2] >= sizeIdeal[2] && sizeObserved[3] >= sizeIdeal[3]), result[0] + result[1] + result[2] + result[3] == imin(sizetotal, sizeObserved[0] + sizeObserved[1] + sizeObserved[2] + sizeObserved[3]))
+//@   ensures [cap] result[0] + result[1] + result[2] + result[3] <= sizetotal
+
+//@ # checkArgs: the option-normalisation table of the property statement
+//@ func checkArgs
+//@   ensures [nothing] implies(sizetotal == 0 && sizeup == 0 && sizedown == 0 && sizeside == 0 && sizesame == 0 && distpush == 0 && distup == 0 && distdown == 0 && distside == 0 && distall == 0, result3 != nil)
+//@   ensures [total.split] implies(result3 == nil && sizetotal > 0, result1[1] == sizetotal / 4 && result1[2] == sizetotal / 4 && result1[3] == sizetotal / 4 && result1[0] == sizetotal - 3 * (sizetotal / 4))
+//@   ensures [total.sum] implies(result3 == nil && sizetotal > 0, result1[0] + result1[1] + result1[2] + result1[3] == sizetotal)
+//@   ensures [sizes] implies(result3 == nil && sizetotal == 0 && !(sizeup == 0 && sizedown == 0 && sizeside == 0 && sizesame == 0), result1[0] == ite(sizesame == -1, 2147483647, sizesame) && result1[1] == ite(sizeup == -1, 2147483647, sizeup) && result1[2] == ite(sizedown == -1, 2147483647, sizedown) && result1[3] == ite(sizeside == -1, 2147483647, sizeside))
+//@   ensures [unlimited] implies(result3 == nil && sizetotal == 0 && sizeup == 0 && sizedown == 0 && sizeside == 0 && sizesame == 0, result1[0] == 2147483647 && result1[1] == 2147483647 && result1[2] == 2147483647 && result1[3] == 2147483647)
+//@   ensures [dist.all] implies(result3 == nil && distall > 0, result2[0] == 0 && result2[1] == distall && result2[2] == distall && result2[3] == distall)
+//@   ensures [dist.each] implies(result3 == nil && distall <= 0 && !(distup == 0 && distdown == 0 && distside == 0), result2[0] == 0 && result2[1] == distup && result2[2] == distdown && result2[3] == distside)
+//@   ensures [dist.none] implies(result3 == nil && distall <= 0 && distup == 0 && distdown == 0 && distside == 0, result2[0] == 2147483647 && result2[1] == 2147483647 && result2[2] == 2147483647 && result2[3] == 2147483647)
+
+//@ # membership by binary search on ascending lists
+//@ func posOverlapBinarySearch
+//@   requires sorted(list)
+//@   ensures result == exists(j, 0, len(list), list[j] == pos)
+//@ func snpOverlapBinarySearch
+//@   requires sorted(list)
+//@   ensures result == exists(j, 0, len(list), list[j] == snp)
+
+//@ # whichWay: direction and threshold arithmetic from the 4-entry table (the meaning of the table entries in terms of
+//@ # alignment columns is NOT decided here: bounded oracle only)
+//@ func whichWay
+//@   requires len(q.snps) == len(q.snpsPos) && len(t.snps) == len(t.snpsPos) && len(q.ambs) % 2 == 0 && len(t.ambs) % 2 == 0
+//@   requires sorted(q.snpsSorted)
+//@   requires sorted(t.snpsSorted)
+//@   requires sorted(q.snpsPos)
+//@   loop 1:
+//@     invariant table[0] >= 0 && table[1] >= 0 && table[2] >= 0 && table[3] >= 0 && table[0] == len(d) && table[2] == 0 && table[0] + table[1] + table[3] == range_i
+//@     invariant freshslice(d) && forall(j, 0, len(d), exists(m, 0, range_i, d[j] == q.snpsPos[m]))
+//@     invariant forall(a, 0, len(d), forall(b, a + 1, len(d), d[a] <= d[b]))
+//@     invariant implies(len(d) > 0 && range_i > 0, d[len(d)-1] <= q.snpsPos[range_i-1])
+//@   loop 2:
+//@     invariant table[0] >= 0 && table[1] >= 0 && table[2] >= 0 && table[3] >= 0 && table[0] == len(d) && 0 <= d_plus && d_plus <= table[2] && table[2] <= range_i
+//@   ensures 0 <= result1 && result1 <= 3 && result2 >= -1
+//@   ensures [local.threshold] (result2 == -1) == (float64(table[3]) / float64(sum) > float64(thresh))
+//@   ensures [local.direction] implies(result2 != -1, result1 == ite(table[0] == 0 && table[2] == 0, 0, ite(table[0] > 0 && table[2] == 0, 1, ite(table[0] == 0, 2, 3))))
+//@   ensures [local.distance] implies(result2 != -1, result2 == len(d) + d_plus && result2 >= table[0] && result2 <= table[0] + table[2])
+
+//@ spec udLess(di int, ai int, dj int, aj int) bool = di < dj || (di == dj && ai < aj)
+//@ func rearrangeCatchment
+//@   requires 1 <= catchmentSize && catchmentSize <= len(nS.catchment)
+//@   modifies nS.catchment
+//@   after call:SliceStable#1: assert [hint.inverse] forall(i, 0, len(nS.catchment), 0 <= sortinv(i) && sortinv(i) < len(nS.catchment) && sortperm(sortinv(i)) == i && nS.catchment[sortinv(i)] == old(nS.catchment[i]))
+//@   ensures len(nS.catchment) == catchmentSize && sameref(nS.catchment, old(nS.catchment))
+//@   ensures [sorted] forall(a, 0, catchmentSize, forall(b, a + 1, catchmentSize, !udLess(nS.catchment[b].distance, nS.catchment[b].ambCount, nS.catchment[a].distance, nS.catchment[a].ambCount)))
+//@   ensures [last] nS.maxDist == nS.catchment[catchmentSize-1].distance && nS.minAmbig == nS.catchment[catchmentSize-1].ambCount
+//@   ensures [members] forall(j, 0, catchmentSize, exists(i, 0, old(len(nS.catchment)), nS.catchment[j] == old(nS.catchment[i])))
+//@   ensures [dropped] forall(i, 0, old(len(nS.catchment)), exists(j, 0, catchmentSize, nS.catchment[j] == old(nS.catchment[i])) || !udLess(old(nS.catchment[i].distance), old(nS.catchment[i].ambCount), nS.catchment[catchmentSize-1].distance, nS.catchment[catchmentSize-1].ambCount))
+
+//@ # findUpDownCatchment: four bounded bins. Proved: no bin ever exceeds sizetotal; a full bin is sorted by (distance,
+//@ # ambiguity count) and maxDist/minAmbig describe its last element; the bins' arrays never alias; the final sizes are
+//@ # those computed by balance (whose contract gives min(requested, available) under --no-fill, the total cap and the fill
+//@ # rule) and each reported bin is a prefix of its sorted candidates.
+//@ func findUpDownCatchment
+//@   modifies cOut
+//@   requires sizeArray[0] >= 0 && sizeArray[1] >= 0 && sizeArray[2] >= 0 && sizeArray[3] >= 0 && sizeArray[0] + sizeArray[1] + sizeArray[2] + sizeArray[3] >= 1
+//@   requires len(recv(cIn)) < 2147483647
+//@   requires len(q.snps) == len(q.snpsPos) && len(q.ambs) % 2 == 0
+//@   requires sorted(q.snpsSorted) && sorted(q.snpsPos)
+//@   requires forall(t, 0, len(recv(cIn)), len(recv(cIn)[t].snps) == len(recv(cIn)[t].snpsPos) && len(recv(cIn)[t].ambs) % 2 == 0)
+//@   requires forall(t, 0, len(recv(cIn)), sorted(recv(cIn)[t].snpsSorted))
+//@   loop 2:
+//@     invariant len(sent(cOut)) == 0 && neighbours.qname == q.id && neighbours.qidx == q.idx && sizetotal >= 1
+//@     invariant len(neighbours.same.catchment) <= sizetotal && freshslice(neighbours.same.catchment) && len(neighbours.up.catchment) <= sizetotal && freshslice(neighbours.up.catchment) && len(neighbours.down.catchment) <= sizetotal && freshslice(neighbours.down.catchment) && len(neighbours.side.catchment) <= sizetotal && freshslice(neighbours.side.catchment)
+//@     invariant disjoint(neighbours.same.catchment, neighbours.up.catchment) && disjoint(neighbours.same.catchment, neighbours.down.catchment) && disjoint(neighbours.same.catchment, neighbours.side.catchment) && disjoint(neighbours.up.catchment, neighbours.down.catchment) && disjoint(neighbours.up.catchment, neighbours.side.catchment) && disjoint(neighbours.down.catchment, neighbours.side.catchment)
+//@     invariant len(neighbours.same.catchment) + len(neighbours.up.catchment) + len(neighbours.down.catchment) + len(neighbours.side.catchment) <= range_i
+//@     invariant implies(len(neighbours.same.catchment) == sizetotal, neighbours.same.maxDist == neighbours.same.catchment[sizetotal-1].distance && neighbours.same.minAmbig == neighbours.same.catchment[sizetotal-1].ambCount && forall(a, 0, sizetotal, forall(b, a + 1, sizetotal, !udLess(neighbours.same.catchment[b].distance, neighbours.same.catchment[b].ambCount, neighbours.same.catchment[a].distance, neighbours.same.catchment[a].ambCount))))
+//@     invariant implies(len(neighbours.up.catchment) == sizetotal, neighbours.up.maxDist == neighbours.up.catchment[sizetotal-1].distance && neighbours.up.minAmbig == neighbours.up.catchment[sizetotal-1].ambCount && forall(a, 0, sizetotal, forall(b, a + 1, sizetotal, !udLess(neighbours.up.catchment[b].distance, neighbours.up.catchment[b].ambCount, neighbours.up.catchment[a].distance, neighbours.up.catchment[a].ambCount))))
+//@     invariant implies(len(neighbours.down.catchment) == sizetotal, neighbours.down.maxDist == neighbours.down.catchment[sizetotal-1].distance && neighbours.down.minAmbig == neighbours.down.catchment[sizetotal-1].ambCount && forall(a, 0, sizetotal, forall(b, a + 1, sizetotal, !udLess(neighbours.down.catchment[b].distance, neighbours.down.catchment[b].ambCount, neighbours.down.catchment[a].distance, neighbours.down.catchment[a].ambCount))))
+//@     invariant implies(len(neighbours.side.catchment) == sizetotal, neighbours.side.maxDist == neighbours.side.catchment[sizetotal-1].distance && neighbours.side.minAmbig == neighbours.side.catchment[sizetotal-1].ambCount && forall(a, 0, sizetotal, forall(b, a + 1, sizetotal, !udLess(neighbours.side.catchment[b].distance, neighbours.side.catchment[b].ambCount, neighbours.side.catchment[a].distance, neighbours.side.catchment[a].ambCount))))
+//@   ensures len(sent(cOut)) == 1 && sent(cOut)[0].qname == q.id && sent(cOut)[0].qidx == q.idx
+//@   ensures [cap] len(sent(cOut)[0].same.catchment) + len(sent(cOut)[0].up.catchment) + len(sent(cOut)[0].down.catchment) + len(sent(cOut)[0].side.catchment) <= ite(sizeArray[0] == 2147483647 || sizeArray[1] == 2147483647 || sizeArray[2] == 2147483647 || sizeArray[3] == 2147483647, 2147483647, sizeArray[0] + sizeArray[1] + sizeArray[2] + sizeArray[3])
+
+//@ # C18: validation prefixes of the entry points
+//@ func List prefix
+//@   modifies everything
+//@   after if#2: assert [c18.oneref] len(temp) == 1
+//@ func TopRanking prefix
+//@   modifies everything
+//@   after if#1: assert [c18.args] err == nil
+
+//@ # C08 --dist-push: the k-nearest-distances bins.
+//@ func getMaxKey
+//@   requires forallint(k, implies(in(m, k), k >= 0))
+//@   loop 1:
+//@     invariant max >= 0 && forall(t, 0, range_i, mapkey(t) <= max) && (max == 0 || exists(t, 0, range_i, mapkey(t) == max))
+//@   before return#1: assert [hint.enum] forallint(k, implies(in(m, k), 0 <= mapidx(k) && mapidx(k) < len(m) && mapkey(mapidx(k)) == k))
+//@   ensures result >= 0 && forallint(k, implies(in(m, k), k <= result)) && (len(m) == 0 || in(m, result)) && (len(m) > 0 || result == 0)
+
+//@ # refactorPushCatchment keeps: keys >= 0, nDists = number of keys <= nodeDistance, maxDist = largest key. The key set
+//@ # becomes: unchanged if the distance is present; keys - {largest} + {d} when at capacity; keys + {d} otherwise.
+//@ func refactorPushCatchment
+//@   requires nodeDistance >= 1 && rS.distance >= 0
+//@   requires forallint(k, implies(in(pC.catchmentMap, k), k >= 0)) && len(pC.catchmentMap) <= nodeDistance && pC.nDists == len(pC.catchmentMap)
+//@   requires forallint(k, implies(in(pC.catchmentMap, k), k <= pC.maxDist)) && (len(pC.catchmentMap) == 0 || in(pC.catchmentMap, pC.maxDist))
+//@   requires implies(len(pC.catchmentMap) == nodeDistance, rS.distance <= pC.maxDist)
+//@   modifies everything
+//@   ensures [keys.nonneg] forallint(k, implies(in(pC.catchmentMap, k), k >= 0))
+//@   ensures [keys.count] len(pC.catchmentMap) <= nodeDistance && len(pC.catchmentMap) >= 1
+//@   ensures [ndists] pC.nDists == len(pC.catchmentMap)
+//@   ensures [maxdist.bound] forallint(k, implies(in(pC.catchmentMap, k), k <= pC.maxDist))
+//@   ensures [maxdist.key] in(pC.catchmentMap, pC.maxDist)
+//@   ensures [inserted] in(pC.catchmentMap, rS.distance)
+//@   ensures [present] implies(old(in(pC.catchmentMap, rS.distance)), forallint(k, in(pC.catchmentMap, k) == old(in(pC.catchmentMap, k))))
+//@   ensures [evict] implies(!old(in(pC.catchmentMap, rS.distance)) && old(len(pC.catchmentMap)) == nodeDistance, forallint(k, in(pC.catchmentMap, k) == (k == rS.distance || (old(in(pC.catchmentMap, k)) && k != old(pC.maxDist)))))
+//@   ensures [grow] implies(!old(in(pC.catchmentMap, rS.distance)) && old(len(pC.catchmentMap)) < nodeDistance, forallint(k, in(pC.catchmentMap, k) == (k == rS.distance || old(in(pC.catchmentMap, k)))))
+
+//@ # findUpDownCatchmentPushDistance: for each of up/down/side the bin's keys are exactly the (at most pushDist) smallest
+//@ # distinct distances seen so far in that direction: every key was seen, and every seen distance is a key or lies beyond
+//@ # the largest key of a full bin.
+//@ func findUpDownCatchmentPushDistance
+//@   modifies everything
+//@   requires pushDist >= 1
+//@   requires len(recv(cIn)) < 2147483647
+//@   requires len(q.snps) == len(q.snpsPos) && len(q.ambs) % 2 == 0
+//@   requires sorted(q.snpsSorted) && sorted(q.snpsPos)
+//@   requires forall(t, 0, len(recv(cIn)), len(recv(cIn)[t].snps) == len(recv(cIn)[t].snpsPos) && len(recv(cIn)[t].ambs) % 2 == 0)
+//@   requires forall(t, 0, len(recv(cIn)), sorted(recv(cIn)[t].snpsSorted))
+//@   ghost gUp map[int]bool = map[int]bool{}
+//@   ghost gDown map[int]bool = map[int]bool{}
+//@   ghost gSide map[int]bool = map[int]bool{}
+//@   before if#4: do gUp[distance] = true
+//@   before if#5: do gDown[distance] = true
+//@   before if#6: do gSide[distance] = true
+//@   loop 1:
+//@     invariant len(sent(cOut)) == 0
+//@     invariant [up.wf] forallint(k, implies(in(pushup.catchmentMap, k), k >= 0 && k <= pushup.maxDist)) && len(pushup.catchmentMap) <= pushDist && pushup.nDists == len(pushup.catchmentMap) && (len(pushup.catchmentMap) == 0 || in(pushup.catchmentMap, pushup.maxDist))
+//@     invariant [down.wf] forallint(k, implies(in(pushdown.catchmentMap, k), k >= 0 && k <= pushdown.maxDist)) && len(pushdown.catchmentMap) <= pushDist && pushdown.nDists == len(pushdown.catchmentMap) && (len(pushdown.catchmentMap) == 0 || in(pushdown.catchmentMap, pushdown.maxDist))
+//@     invariant [side.wf] forallint(k, implies(in(pushside.catchmentMap, k), k >= 0 && k <= pushside.maxDist)) && len(pushside.catchmentMap) <= pushDist && pushside.nDists == len(pushside.catchmentMap) && (len(pushside.catchmentMap) == 0 || in(pushside.catchmentMap, pushside.maxDist))
+//@     invariant [up.nearest] forallint(s, implies(in(pushup.catchmentMap, s), in(gUp, s)) && implies(in(gUp, s), in(pushup.catchmentMap, s) || (len(pushup.catchmentMap) == pushDist && s > pushup.maxDist)))
+//@     invariant [down.nearest] forallint(s, implies(in(pushdown.catchmentMap, s), in(gDown, s)) && implies(in(gDown, s), in(pushdown.catchmentMap, s) || (len(pushdown.catchmentMap) == pushDist && s > pushdown.maxDist)))
+//@     invariant [side.nearest] forallint(s, implies(in(pushside.catchmentMap, s), in(gSide, s)) && implies(in(gSide, s), in(pushside.catchmentMap, s) || (len(pushside.catchmentMap) == pushDist && s > pushside.maxDist)))
+//@   ensures len(sent(cOut)) == 1 && sent(cOut)[0].qname == q.id && sent(cOut)[0].qidx == q.idx
